@@ -11,6 +11,7 @@ use serde_json::{json, Value};
 use std::collections::BTreeMap;
 
 pub const NEED: u64 = 3;
+pub const RECONF: u64 = 1 << 62;
 
 fn is_ext(name: &str) -> bool {
     matches!(name, "EXT1" | "EXT2" | "EXT4")
@@ -72,11 +73,22 @@ pub fn scenario_for(p: u8, flags: bool, seed: u64) -> Scenario {
     Scenario::solo(c, Entropy::Rand(seed))
 }
 
+/// the opt-in opcodes switched on *after* the generator has already produced a pickle without them
+pub fn scenario_reconfigured(p: u8, seed: u64) -> Scenario {
+    let c = Config::default_for(p);
+    let mut sc = Scenario::solo(c, Entropy::Rand(seed ^ 0x5555));
+    sc.history.push(crate::desc::HOp::SetFlags(true, true));
+    sc.history.push(crate::desc::HOp::Gen(Entropy::Rand(seed)));
+    sc
+}
+
 /// opcode names (deduplicated) of one default-settings run
 fn names_of(p: u8, flags: bool, seed: u64) -> Option<(Vec<&'static str>, bool)> {
-    let sc = scenario_for(p, flags, seed);
+    // seeds with bit 62 set mark the "reconfigured generator" batch
+    let reconf = seed & RECONF != 0;
+    let sc = if reconf { scenario_reconfigured(p, seed & !RECONF) } else { scenario_for(p, flags, seed) };
     let recs = exec::run_scenario(&sc, Trace::Off, false);
-    let out = recs.first()?.outcome.bytes()?;
+    let out = recs.last()?.outcome.bytes()?;
     let (ops, err) = lexer::lex(out);
     if err.is_some() {
         return None;
@@ -246,6 +258,23 @@ pub fn sweep(tier: Tier, verif_seed: u64) -> ReachOutcome {
             }
         }
     }
+    // third batch: the flags are switched on through the pub fields on a generator that was already
+    // used with them off (a per-generator cache of the vocabulary must not survive reconfiguration)
+    for p in 2..6u8 {
+        let b = run_batch(p, true, RECONF, max_seeds, &mut stats);
+        for (n, c) in &b.counts {
+            if *c > 0 {
+                pairs.insert((p, true, *n));
+            }
+        }
+        detail.push(json!({"protocol": p, "ext_and_buffer_enabled": "switched on after a first call", "seeds_tried": b.seeds_tried, "complete": b.complete()}));
+        for m in b.missing() {
+            violations.push((
+                json!({"protocol": p, "flags": true, "reconfigured": true, "target": m, "seeds": b.seeds_tried}),
+                Violation::new("C12", format!("unreached({},{})", p, m), format!("{} never occurs in protocol-{} output for {} seeds once EXT/buffer opcodes are enabled on an already used generator", m, p, b.seeds_tried)),
+            ));
+        }
+    }
     ReachOutcome { stats, violations, pairs_seen: pairs.len(), detail: json!(detail) }
 }
 
@@ -256,7 +285,8 @@ pub fn replay(body: &Value) -> Vec<Violation> {
     let target = body["target"].as_str().unwrap_or("").to_string();
     let seeds = body["seeds"].as_u64().unwrap_or(0);
     let mut st = Stats::default();
-    let b = run_batch(p, flags, 0, seeds, &mut st);
+    let base = if body["reconfigured"].as_bool() == Some(true) { RECONF } else { 0 };
+    let b = run_batch(p, flags, base, seeds, &mut st);
     b.missing()
         .into_iter()
         .filter(|m| *m == target)
